@@ -101,7 +101,11 @@ def explicit_err(ctx, out, name, body, guard_rx, polarity_true, what, key):
                     txt = render(e, 800)
                     if re.search(guard_rx, txt):
                         if (polarity_true and 0 not in vals) or (not polarity_true and vals == {0}):
-                            return 1
+                            if key == "direction" or util.arm_only_err(ctx, b, br, vals):
+                                return 1
+                            out.viol("C13.sites", "C13.sites|%s|%s|weakened" % (name, key), ctx.where(b, s["span"]),
+                                     "the `Err` for %s needs a further condition besides the malformation test: some malformed values of this kind pass" % what)
+                            return 0
     out.viol("C13.sites", "C13.sites|%s|%s" % (name, key), "-",
              "in the `%s` validator no `Err` is produced under %s: %s would be accepted silently" % (name, what, what))
     return 0
